@@ -274,6 +274,16 @@ theorem c10_gen_claim_bytes :
       claimBytes (argBytes ai) (1 + rest.length) 1 = !decide (rest.length < argBytes ai)) :=
   ⟨gen_claim_bytes, gen_claim_model⟩
 
+/-- `aws_byte_buf_reserve_smart` of byte_buf.c, regenerated (capacity lifted to a parameter, result = the
+capacity handed to `aws_byte_buf_reserve`): afterwards the capacity covers the request — for every
+capacity, in particular beyond any size threshold — and it is the model's policy `max(request, 2·capacity)`.
+With `c10_gen_reservation` (the request is `len + need`) the libcbor writer and the string payload
+always have room. -/
+theorem c10_gen_reserve_smart :
+    (∀ cap req, cap < 2^64 → req < 2^64 → req ≤ reserveSmartCap cap req) ∧
+    (∀ cap len add, cap + cap < 2^64 → len + add < 2^64 → reserveSmartCap cap (len + add) = reserveSmart cap len add) :=
+  ⟨gen_reserve_smart_ge, gen_reserve_smart_model⟩
+
 set_option maxRecDepth 20000 in
 /-- The callback table cbor.c hands to libcbor, regenerated slot by slot (the decode-table theorem below
 reads the aws type of each slot from it): each slot's aws callback stores one fixed element type and the
@@ -305,7 +315,8 @@ theorem c10_gen_accessors :
     accessorBodies.lookup "s_get_encoder_current_position" = some "{return (encoder->encoded_buf.buffer+encoder->encoded_buf.len);}" ∧
     accessorBodies.lookup "s_get_encoder_remaining_len" = some "{return (encoder->encoded_buf.capacity-encoder->encoded_buf.len);}" ∧
     accessorBodies.lookup "aws_cbor_decoder_get_remaining_length" = some "{return decoder->src.len;}" ∧
-    accessorBodies.length = 7 := by
+    accessorBodies.lookup "aws_byte_buf_reserve_smart_relative" = some "{requested_capacity=0; if(__builtin_expect(!!aws_add_size_checked(buffer->len,additional_length,&requested_capacity),0)){return -1;} return aws_byte_buf_reserve_smart(buffer,requested_capacity);}" ∧
+    accessorBodies.length = 8 := by
   rw [gen_accessors]; decide
 
 /-- The switch of `cbor_stream_decode`, regenerated as one row per initial byte: in every row the loader
